@@ -50,7 +50,7 @@ func pkgPathOfDir(dir string) string {
 	rel, _ := filepath.Rel(repoRoot, dir)
 	sdk := "sdk/go/hydraidego"
 	if rel == sdk || strings.HasPrefix(rel, sdk+"/") {
-		return "github.com/hydraide/hydraide/sdk/go/hydraidego" + strings.TrimPrefix(rel, sdk)
+		return "github.com/hydraide/hydraide/sdk/go/hydraidego/v3" + strings.TrimPrefix(rel, sdk)
 	}
 	if rel == "." {
 		return "github.com/hydraide/hydraide"
@@ -126,6 +126,13 @@ func (l *Loaded) newRunner() *Runner {
 }
 
 func shortFn(key string) string {
+	if strings.Contains(key, "/sdk/go/hydraidego/") {
+		return "sdk." + shortFn0(key)
+	}
+	return shortFn0(key)
+}
+
+func shortFn0(key string) string {
 	// (*github.com/x/y/pkg.T).M -> pkg.(*T).M ; github.com/x/pkg.F -> pkg.F
 	s := key
 	if strings.HasPrefix(s, "(") {
@@ -234,6 +241,23 @@ func (l *Loaded) verifyFunc(r *Runner, fn *ssa.Function, sp *FuncSpec) (res *FnR
 			}
 		}
 	}
+	// declared representation invariants of pointer parameters (established by constructors; assumed here)
+	for i, p := range fn.Params {
+		pt, ok := p.Type().Underlying().(*types.Pointer)
+		if !ok {
+			continue
+		}
+		ts := r.typeSpecOf(pt.Elem())
+		if ts == nil || len(ts.Invs) == 0 {
+			continue
+		}
+		for _, c := range ts.Invs {
+			e2 := r.newEnv(st, r.pkgByPath(ts.Pkg))
+			e2.vars["self"] = f.params[i]
+			st.assume(Implies(Ne(f.params[i].C[0], Zero), e2.EvalBool(c.E, st)))
+			r.note("type invariant " + shortType(pt.Elem()) + "." + c.Label + " assumed for parameter " + p.Name())
+		}
+	}
 	for _, c := range sp.Requires {
 		st.assume(env.EvalBool(c.E, st))
 	}
@@ -288,15 +312,55 @@ func (l *Loaded) verifyLemma(r *Runner, lm *LemmaSpec) (res *FnResult) {
 	for _, h := range lm.Hyps {
 		st.assume(env.EvalBool(h.E, st))
 	}
-	g := env.EvalBool(lm.Goal.E, st)
-	name := r.curName
-	o := &Oblig{Name: name, Kind: "lemma", Fn: name, Goal: g, PC: append([]Term{}, st.pc...), Expect: "unsat", Props: lm.Props}
-	if lm.Canary {
-		// a canary must be REFUTED: it is recorded as an expect-sat check of the negated goal
-		o.Kind = "canary"
-		o.Expect = "sat"
+	for _, u := range lm.Uses {
+		sp := r.specFor(u.Key)
+		if sp == nil {
+			panic(specErr{"lemma " + lm.Name + ": no contract for " + u.Key})
+		}
+		if len(u.Args) != len(sp.Formals) || len(u.Results) > len(sp.Results) {
+			panic(specErr{"lemma " + lm.Name + ": arity mismatch in uses " + u.Key})
+		}
+		uenv := r.newEnv(st, r.specPkg(sp, nil))
+		for i, a := range u.Args {
+			v, ok := env.vars[a]
+			if !ok {
+				panic(specErr{"lemma " + lm.Name + ": unknown variable " + a})
+			}
+			if sp.Formals[i] != "_" {
+				uenv.vars[sp.Formals[i]] = v
+			}
+		}
+		for i, a := range u.Results {
+			v, ok := env.vars[a]
+			if !ok {
+				panic(specErr{"lemma " + lm.Name + ": unknown variable " + a})
+			}
+			if sp.Results[i] != "_" {
+				uenv.vars[sp.Results[i]] = v
+			}
+		}
+		for _, c := range sp.Ensures {
+			if strings.Contains(c.Src, "fresh(") {
+				continue // allocation facts are meaningless in the single state of a lemma
+			}
+			st.assume(uenv.EvalBool(c.E, st))
+		}
 	}
-	r.obligs = append(r.obligs, o)
+	name := r.curName
+	for _, gc := range lm.Goals {
+		g := env.EvalBool(gc.E, st)
+		n := name
+		if gc.Label != "" {
+			n += "[" + gc.Label + "]"
+		}
+		o := &Oblig{Name: n, Kind: "lemma", Fn: name, Goal: g, PC: append([]Term{}, st.pc...), Expect: "unsat", Props: lm.Props}
+		if lm.Canary {
+			// a canary must be REFUTED: it is recorded as an expect-sat check of the negated goal
+			o.Kind = "canary"
+			o.Expect = "sat"
+		}
+		r.obligs = append(r.obligs, o)
+	}
 	return res
 }
 
@@ -328,6 +392,9 @@ func (l *Loaded) resolveType(pkg *ssa.Package, name string) types.Type {
 		}
 		if name == "byte" {
 			t = types.Typ[types.Uint8]
+		}
+		if name == "error" {
+			t = errorType
 		}
 		if t == nil && pkg != nil {
 			if obj := pkg.Pkg.Scope().Lookup(name); obj != nil {
